@@ -518,7 +518,11 @@ def den(x, level="row") -> NV:
     if k == "func":
         return _den_func(x, level)
     if k == "over":
-        raise Unsupported("value of a window expression")
+        el, pb, ob = x.args
+        if ob is None or (hasattr(ob, "__len__") and len(ob) == 0):
+            _ax("SQL: agg(x) OVER (PARTITION BY p) gives every row the aggregate of its partition")
+            return den(el, level)
+        raise Unsupported("value of an ordered window expression")
     if k == "text":
         raise Unsupported("value of raw SQL text")
     raise Unsupported(f"SQL model: {k}")
